@@ -2,6 +2,7 @@ package rules
 
 import (
 	"fmt"
+	"go/constant"
 	"go/token"
 	"strings"
 
@@ -92,8 +93,17 @@ func C08(p *core.Program, r *core.Report) {
 	}
 	// the part file name derives from the full bundle id (fragments get their own file)
 	bpp := p.Func(storagePkg, "", "bundlePartPath")
-	okPath := len(core.CallsTo(bpp, "crypto/sha256.Sum256")) == 1 && len(core.CallsTo(bpp, bp7+".BundleID.String")) == 1
+	sums := core.CallsTo(bpp, "crypto/sha256.Sum256")
+	okPath := len(sums) == 1 && len(bpp.Params) >= 1 && partNameDependsOnID(bpp, core.Arg(sums[0], 0))
 	r.Check(okPath, "key-derivation/"+fname(bpp), "a part's file name is the hash of the part's full bundle ID (distinct fragments get distinct files)", p.Pos(bpp.Pos()), "", "file name derivation changed")
+	// ... and the name of a whole bundle cannot be spelled by a fragment's: BundleID.String() joins source, time,
+	// sequence number (and offset, total length) with '-', and a source's endpoint may itself end in "-7-0". The two
+	// kinds of name start with different literal text.
+	okTag, whyTag := false, "no Sum256 call"
+	if len(sums) == 1 {
+		okTag, whyTag = partNameKindTagged(core.Arg(sums[0], 0))
+	}
+	r.Check(okTag, "key-derivation/"+fname(bpp)+"/kind-tagged", "the hashed name of a whole bundle's file and of a fragment's file start with different literal prefixes, so that no whole bundle's name equals a fragment's (an endpoint may contain '-' and digits)", p.Pos(bpp.Pos()), "", whyTag)
 
 	// ---- OR: Push
 	push := p.Func(storagePkg, "Store", "Push")
@@ -530,4 +540,64 @@ func isLoadOfSameField(v ssa.Value, addr ssa.Value) bool {
 	fa1, ok1 := ld.X.(*ssa.FieldAddr)
 	fa2, ok2 := addr.(*ssa.FieldAddr)
 	return ok1 && ok2 && fa1.X == fa2.X && fa1.Field == fa2.Field
+}
+
+
+// partNameDependsOnID: the hashed name is computed from the BundleID parameter (its String(), or the value itself
+// handed to a formatting function).
+func partNameDependsOnID(bpp *ssa.Function, name ssa.Value) bool {
+	return core.DependsOn(name, func(v ssa.Value) bool {
+		if v == ssa.Value(bpp.Params[0]) {
+			return true
+		}
+		cc, ok := v.(*ssa.Call)
+		return ok && core.NameIs(core.CalleeName(cc), bp7+".BundleID.String")
+	})
+}
+
+// literalPrefix of a string-valued expression: the constant text it starts with ("" when unknown).
+func literalPrefix(v ssa.Value) string {
+	v = core.Strip(v)
+	switch x := v.(type) {
+	case *ssa.Const:
+		if x.Value != nil && x.Value.Kind() == constant.String {
+			return constant.StringVal(x.Value)
+		}
+	case *ssa.BinOp:
+		if x.Op == token.ADD {
+			return literalPrefix(x.X)
+		}
+	case *ssa.Call:
+		if n := core.CalleeName(x); n == "fmt.Sprintf" || n == "fmt.Sprint" {
+			f := literalPrefix(core.Arg(x, 0))
+			if i := strings.IndexByte(f, '%'); i >= 0 {
+				f = f[:i]
+			}
+			return f
+		}
+	}
+	return ""
+}
+
+func partNameKindTagged(name ssa.Value) (bool, string) {
+	name = core.Strip(name)
+	phi, ok := name.(*ssa.Phi)
+	if !ok {
+		return false, "one expression names whole bundles and fragments alike"
+	}
+	var pre []string
+	for _, e := range phi.Edges {
+		pre = append(pre, literalPrefix(e))
+	}
+	for i := range pre {
+		if pre[i] == "" {
+			return false, "a name does not start with literal text"
+		}
+		for j := range pre {
+			if i != j && strings.HasPrefix(pre[i], pre[j]) {
+				return false, fmt.Sprintf("prefix %q begins with %q", pre[i], pre[j])
+			}
+		}
+	}
+	return len(pre) >= 2, fmt.Sprintf("prefixes %q", pre)
 }
